@@ -135,6 +135,9 @@ var statusMsgs = []string{"", "boom", "Ünïcödé ✓ 失敗", strings.Repeat("
 
 func drawStatus(g *rand.Rand) *StatusSpec {
 	sp := &StatusSpec{ErrKind: g.IntN(5), Code: 1 + g.IntN(16), Msg: statusMsgs[g.IntN(len(statusMsgs))], Details: g.IntN(4)}
+	if g.IntN(12) == 0 {
+		sp.ErrKind = 6 + g.IntN(2) // io.EOF, bare or wrapped: a plain error like any other
+	}
 	if sp.ErrKind >= 2 {
 		sp.Details = 0
 		if sp.Msg == "" {
@@ -609,7 +612,7 @@ func init() {
 	// shared by every call of the connection). Unary only: over a WebSocket the end of any
 	// stream that still has a write in hand closes the connection (known finding F51,
 	// family c02.ws), which in lock-step schedules includes the ordinary half-close.
-	Register(&Family{Name: "mix.ws", Props: []string{"C01", "C05"}, New: func() any { return &MixParams{} }, Exec: execMix, ShrinkKeys: []string{"callers"},
+	Register(&Family{Name: "mix.ws", Props: []string{"C01", "C05", "C15"}, New: func() any { return &MixParams{} }, Exec: execMix, ShrinkKeys: []string{"callers"},
 		Gen: func(g *rand.Rand, tier string) any {
 			p := genMix(Bias{Streams: 0, Errors: 10, Metadata: 5, MaxCalls: 16, Bounded: true})(g, tier).(*MixParams)
 			p.Topo.Kind = TopoWS
@@ -618,7 +621,7 @@ func init() {
 		}})
 	// mix.http: the same over the library's HTTP transport (one GoatOverHttp per party, POSTs
 	// through an in-memory RoundTripper), unary calls and class-B streams
-	Register(&Family{Name: "mix.http", Props: []string{"C01", "C02", "C05"}, New: func() any { return &MixParams{} }, Exec: execMix, ShrinkKeys: []string{"callers"},
+	Register(&Family{Name: "mix.http", Props: []string{"C01", "C02", "C05", "C15"}, New: func() any { return &MixParams{} }, Exec: execMix, ShrinkKeys: []string{"callers"},
 		Gen: func(g *rand.Rand, tier string) any {
 			p := genMix(Bias{Streams: 40, Errors: 10, Metadata: 5, MaxMsgs: 4, MaxCalls: 12, Bounded: true})(g, tier).(*MixParams)
 			p.Topo.Kind = TopoHTTP
@@ -838,6 +841,32 @@ func checkStatus(run *MixRun) {
 		if got == nil {
 			e.Violate(prop, "success-on-failure", site, "call %d: handler returned %v, caller observed success", id, want)
 			continue
+		}
+		if hs, _ := status.FromError(c.HStatus.inner()); c.Kind != KUnary && c.HStatus.ErrKind <= 2 && c.Timeout == 0 && c.PreDone == 0 && !hasOp(c.CProg, 'x') &&
+			hs.Code() != codes.Canceled && hs.Code() != codes.DeadlineExceeded {
+			// the caller's context lives for the whole run and the handler failed with a
+			// status of its own: what the caller's sends and its half-close report is that
+			// status (or nothing) - never a context error, which is what the generated
+			// CloseAndRecv / Send would hand to the application instead of the status
+			isCtx := func(err error) bool {
+				if err == nil || err == io.EOF {
+					return false
+				}
+				if errors.Is(err, context.Canceled) || errors.Is(err, context.DeadlineExceeded) {
+					return true
+				}
+				st, ok := status.FromError(err)
+				return ok && (st.Code() == codes.Canceled || st.Code() == codes.DeadlineExceeded)
+			}
+			if isCtx(r.CloseErr) {
+				e.Violate(prop, "context-error-for-handler-status", site+".closesend", "call %d: the handler failed with %v and the caller never cancelled, but CloseSend returned %v", id, want, r.CloseErr)
+			}
+			for _, se := range r.CSendErr {
+				if isCtx(se) {
+					e.Violate(prop, "context-error-for-handler-status", site+".send", "call %d: the handler failed with %v and the caller never cancelled, but SendMsg returned %v", id, want, se)
+					break
+				}
+			}
 		}
 		if c.Kind == KCStream && len(r.CGot) > 0 {
 			// A client-streaming call has one reply, and the generated stub's
